@@ -7,7 +7,7 @@ import contextlib
 from kernel.type import Type, TVar, TFun, BoolType, TypeMatchException
 from kernel.term import Term, Var, TypeCheckException
 from kernel.thm import Thm, primitive_deriv, InvalidDerivationException
-from kernel.proof import Proof, ProofStateException
+from kernel.proof import Proof, ItemID, ProofStateException
 from kernel import extension
 from kernel.report import ExtensionReport, ProofReport
 
@@ -303,6 +303,18 @@ class Theory:
         else:
             raise TypeError
 
+    @staticmethod
+    def _check_item_ids(prefix, items):
+        """The id of each item must agree with its position: citations are
+        resolved by position (Proof.find_item), while the dependency rule
+        (ItemID.can_depend_on) compares ids.
+
+        """
+        for i, item in enumerate(items):
+            if item.id != ItemID(prefix + (i,)):
+                raise CheckProofException("id %s does not agree with position %s" % (
+                    item.id, ItemID(prefix + (i,))))
+
     def _check_proof_item(self, prf, seq, rpt, no_gaps, compute_only, check_level):
         """Check a single proof item.
 
@@ -332,6 +344,7 @@ class Theory:
             # In compute_only mode, skip when a theorem exists. However,
             # subproofs still need to be checked.
             if seq.rule == "subproof":
+                self._check_item_ids(seq.id.id, seq.subproof.items)
                 for s in seq.subproof.items:
                     self._check_proof_item(prf, s, rpt, no_gaps, compute_only, check_level)
             return None
@@ -349,6 +362,7 @@ class Theory:
             nm, T = seq.args
             res_th = Thm.mk_VAR(Var(nm, T))
         elif seq.rule == "subproof":
+            self._check_item_ids(seq.id.id, seq.subproof.items)
             for s in seq.subproof.items:
                 self._check_proof_item(prf, s, rpt, no_gaps, compute_only, check_level)
             res_th = seq.subproof.items[-1].th
@@ -398,6 +412,7 @@ class Theory:
                     seq.subproof = macro.expand(seq.id, seq.args, list(zip(seq.prevs, prev_ths)))
                     if rpt is not None:
                         rpt.expand_macro(seq.rule)
+                    self._check_item_ids(seq.id.id, seq.subproof.items)
                     for s in seq.subproof.items:
                         self._check_proof_item(prf, s, rpt, no_gaps, compute_only, check_level)
                     res_th = seq.subproof.items[-1].th
@@ -430,6 +445,7 @@ class Theory:
         
         """
         assert isinstance(prf, Proof), "check_proof"
+        self._check_item_ids(tuple(), prf.items)
         for seq in prf.items:
             self._check_proof_item(prf, seq, rpt, no_gaps, compute_only, check_level)
 
